@@ -94,7 +94,7 @@ package boltz
 //@   nosafety
 //@   modifies *
 //@ func (*BaseStore).DeleteWhere
-//@   props C07 C15
+//@   props C07 C15 C16
 //@   errflow
 //@   nosafety
 //@   modifies *, ocCnt, ocFn, ocRecv, cxN, cxWho, cxPhase, cxCtx, cxPersist, edDone, pdN, pdWho, pdId
